@@ -122,6 +122,8 @@ def run(unit, repo, build_dir, timeout=900, rlimit=None, extra_args=None):
         # which generated line states the failed clause, and where in the body it failed
         clause_ln, site_ln = None, None
         for s in d.get("spans", []):
+            if os.path.basename(s.get("file_name", "")) != os.path.basename(out_rs):
+                continue   # span inside vstd (e.g. the precondition of Vec::index): no clause of ours
             lab = (s.get("label") or "")
             if "failed this postcondition" in lab or "failed precondition" in lab or "failed this" in lab:
                 clause_ln = s["line_start"]
